@@ -210,7 +210,7 @@ fn fail_retry_profile() -> Profile {
 pub fn sc_fail_retry_ledger(idx: u64, seed: u64, _t: bool) -> RunOut {
     let plan = Plan {
         scenario: "fail-retry-ledger",
-        opts: CfgOpts { record: true, late_psk: 300, surplus_rs: 150, ..CfgOpts::default() },
+        opts: CfgOpts { record: true, late_psk: 300, surplus_rs: 150, evil_pub: 60, ..CfgOpts::default() },
         profile: Profile { tr_rekey: 60, tr_rekey_sync: 40, tr_nonce_explicit: 40, ..fail_retry_profile() },
         mode: "plain",
         warm_parallel: false,
@@ -222,7 +222,7 @@ pub fn sc_fail_retry_ledger(idx: u64, seed: u64, _t: bool) -> RunOut {
 pub fn sc_fail_retry_control(idx: u64, seed: u64, _t: bool) -> RunOut {
     let plan = Plan {
         scenario: "fail-retry-control",
-        opts: CfgOpts { rng_mode: RngMode::PerCall, late_psk: 300, sessions: 2, surplus_rs: 150, ..CfgOpts::default() },
+        opts: CfgOpts { rng_mode: RngMode::PerCall, late_psk: 300, sessions: 2, surplus_rs: 150, evil_pub: 60, ..CfgOpts::default() },
         profile: fail_retry_profile(),
         mode: "control",
         warm_parallel: true,
@@ -535,7 +535,7 @@ fn chaos_profile() -> Profile {
 pub fn sc_chaos(idx: u64, seed: u64, _t: bool) -> RunOut {
     let plan = Plan {
         scenario: "chaos",
-        opts: CfgOpts { sessions: 2, late_psk: 200, record: idx % 4 == 0, surplus_rs: 100, ..CfgOpts::default() },
+        opts: CfgOpts { sessions: 2, late_psk: 200, record: idx % 4 == 0, surplus_rs: 100, evil_pub: 60, ..CfgOpts::default() },
         profile: chaos_profile(),
         mode: "plain",
         warm_parallel: true,
@@ -675,7 +675,8 @@ pub fn sc_rekey(idx: u64, seed: u64, _t: bool) -> RunOut {
             tr_steps: (10, 40),
             tr_rekey: 150,
             tr_rekey_sync: 120,
-            tr_setrecv: 20,
+            tr_setrecv: 40,
+            tr_setsend: 40,
             stateless: 400,
             epilogue: true,
             ..Profile::default()
@@ -698,6 +699,7 @@ pub fn sc_stateless(idx: u64, seed: u64, _t: bool) -> RunOut {
             tr_delay: 80,
             stateless: 900,
             big_payloads: 20,
+            tr_mutate: 60,
             wild_buffers: true,
             ..Profile::default()
         },
@@ -719,6 +721,8 @@ pub fn sc_leak(idx: u64, seed: u64, _t: bool) -> RunOut {
             tr_hist: 60,
             tr_nonce_explicit: 60,
             stateless: 500,
+            big_payloads: 80,
+            wild_buffers: true,
             ..Profile::default()
         },
         mode: "plain",
@@ -800,6 +804,7 @@ pub fn boot_matrix_cfgs() -> Vec<RunCfg> {
                             backend: Backend::Default,
                             rng_seed: rng.next_u64(),
                             deny,
+                            evil_static_pub: false,
                         };
                         out.push(RunCfg {
                             scenario: "boot-matrix".into(),
@@ -828,6 +833,7 @@ pub fn boot_matrix_cfgs() -> Vec<RunCfg> {
                 backend: Backend::Default,
                 rng_seed: 1,
                 deny: None,
+                evil_static_pub: false,
             }],
             rng_mode: RngMode::Stream,
             record: false,
@@ -1051,7 +1057,7 @@ pub fn check_table() -> Vec<Check> {
         Check { id: "C11", level: "exploration", rule: RULE, enumerations: vec![], scens: vec![scen!("statemachine", sc_statemachine, 30_000, 800_000, 0xB01), scen!("call-enum", sc_call_enum, 7_776, 279_936, 0xB02)] },
         Check { id: "C12", level: "fault_enumeration", rule: "boot half: every (pattern, role, subset of {local static, remote static} supplied, psk modifier index 0..9 / none / fallback, resolver lacking each primitive) is booted once - complete enumeration; a boot is non-trivial if it is not the all-keys-supplied no-modifier default; run-time half: seeded sessions with PSKs withheld at boot", enumerations: vec!["boot-matrix"], scens: vec![scen!("boot-runtime", sc_boot_runtime, 12_000, 300_000, 0xC01)] },
         Check { id: "C14", level: "exploration", rule: RULE, enumerations: vec![], scens: vec![scen!("framing", sc_framing, 24_000, 600_000, 0xE01), scen!("interop", sc_interop, 6_000, 100_000, 0xE02), scen!("framing-boundary", sc_framing_boundary, 10_640, 42_560, 0xE03)] },
-        Check { id: "C15", level: "exploration", rule: RULE, enumerations: vec![], scens: vec![scen!("rekey", sc_rekey, 24_000, 600_000, 0xF01)] },
+        Check { id: "C15", level: "exploration", rule: RULE, enumerations: vec![], scens: vec![scen!("rekey", sc_rekey, 24_000, 600_000, 0xF01), scen!("nonce", sc_nonce, 6_000, 100_000, 0xF02)] },
         Check { id: "C16", level: "exploration", rule: RULE, enumerations: vec!["stateless-threads"], scens: vec![scen!("stateless", sc_stateless, 24_000, 600_000, 0x1001)] },
         Check { id: "C17", level: "exploration", rule: RULE, enumerations: vec![], scens: vec![scen!("honest", sc_honest, 16_000, 400_000, 0x1101), scen!("fail-retry", sc_fail_retry_ledger, 8_000, 200_000, 0x1102)] },
         Check { id: "C19", level: "exploration", rule: RULE, enumerations: vec![], scens: vec![scen!("leak", sc_leak, 24_000, 600_000, 0x1301), scen!("tamper-hs", sc_tamper_hs, 6_000, 100_000, 0x1302)] },
